@@ -171,6 +171,13 @@ func (a *Activation) enterLoop(st *State, li *loopInfo) {
 	}
 	// havoc modified state
 	cells, heaps, all := a.modSet(li)
+	pre := map[cellKey]Val{}
+	prePC := st.pc
+	for _, k := range cells {
+		if v, ok := st.cells[k]; ok {
+			pre[k] = v
+		}
+	}
 	for _, k := range cells {
 		if old, ok := st.cells[k]; ok {
 			elemT := types.Type(nil)
@@ -197,6 +204,19 @@ func (a *Activation) enterLoop(st *State, li *loopInfo) {
 	nc := g.fresh("ctr", "Int")
 	g.assertLine(app(SBool, ">=", nc, st.ctr), nc)
 	st.ctr = nc
+	// hidden loop counters of `range` loops keep their lower bound: -1 <= rangeindex,
+	// 0 <= rangeint.iter (established before the loop by the SSA lowering, preserved by
+	// the +1 step; both facts are checked as obligations, not assumed)
+	for _, k := range cells {
+		lb, ok := hiddenCounterLowerBound(k.alloc)
+		if !ok {
+			continue
+		}
+		if ov, had := pre[k]; had {
+			g.oblige(&State{pc: prePC}, a.name, fmt.Sprintf("inv.%d.init", li.ord), "range-counter", counterInv(lb, ov.T), token.NoPos)
+		}
+		g.assume(st, counterInv(lb, st.cells[k].T))
+	}
 	// assume invariants
 	for _, cl := range invs {
 		ctx := a.specCtx(st, fmt.Sprintf("loop %d invariant %s", li.ord, cl.Label), true)
@@ -225,8 +245,35 @@ func (a *Activation) enterLoop(st *State, li *loopInfo) {
 	}
 }
 
+// counterInv: lb <= v < MaxInt64 (inductive with the loop's own `v+1 < bound` test).
+func counterInv(lb, v Term) Term {
+	return and(bvcmp("bvsle", lb, v), bvcmp("bvslt", v, bv64(1<<63-1)))
+}
+
+func hiddenCounterLowerBound(al *ssa.Alloc) (Term, bool) {
+	switch al.Comment {
+	case "rangeindex":
+		return bv64(^uint64(0)), true // -1
+	case "rangeint.iter":
+		if b, ok := al.Type().(*types.Pointer).Elem().Underlying().(*types.Basic); ok && intBits(b) == 64 && b.Info()&types.IsUnsigned == 0 {
+			return bv64(0), true
+		}
+	}
+	return Term{}, false
+}
+
 func (a *Activation) backEdge(st *State, li *loopInfo, from *ssa.BasicBlock) {
 	g := a.g
+	if cells, _, _ := a.modSet(li); true {
+		for _, k := range cells {
+			if lb, ok := hiddenCounterLowerBound(k.alloc); ok {
+				if v, has := st.cells[k]; has {
+					// no wrap: the counter was below the (non-negative) bound it is compared with
+					g.oblige(st, a.name, fmt.Sprintf("inv.%d.step", li.ord), "range-counter", counterInv(lb, v.T), token.NoPos)
+				}
+			}
+		}
+	}
 	for _, cl := range a.loopClauses(li) {
 		ctx := a.specCtx(st, fmt.Sprintf("loop %d invariant %s", li.ord, cl.Label), true)
 		t := ctx.boolOf(ctx.eval(cl.E))
@@ -457,6 +504,10 @@ func (a *Activation) modSortsOfSpec(callee *ssa.Function, spec *FuncSpec, hm map
 			g.leafSorts(pt.Elem(), hm)
 		case *ECall:
 			id, ok := e.Fun.(*EIdent)
+			if ok && id.Name == "avail" {
+				hm["Avail"] = true
+				continue
+			}
 			if !ok || (id.Name != "bytes" && id.Name != "elems") {
 				return false
 			}
@@ -600,6 +651,19 @@ func (a *Activation) frameRangeCond(st *State, cond Term, arr, lo, n Term, pos t
 func evalModifies(ctx *SpecCtx, spec *FuncSpec) (locs []Term, locTys []types.Type, ranges []frameRangeT, err error) {
 	for _, m := range spec.Modifies {
 		if call, ok := m.(*ECall); ok {
+			if id, ok := call.Fun.(*EIdent); ok && id.Name == "avail" && len(call.Args) == 1 {
+				// ghost stream counter of a reader: havocked separately (see applyContract)
+				v := ctx.eval(call.Args[0])
+				if ctx.err != nil {
+					return nil, nil, nil, ctx.err
+				}
+				l := v.T
+				if l.Sort == SIface {
+					l = app(SLoc, "iface_loc", l)
+				}
+				ranges = append(ranges, frameRangeT{arr: l, lo: T("ghost", "Avail"), n: bv64(0)})
+				continue
+			}
 			if id, ok := call.Fun.(*EIdent); ok && (id.Name == "bytes" || id.Name == "elems") && len(call.Args) == 1 {
 				v := ctx.eval(call.Args[0])
 				if ctx.err != nil {
@@ -736,6 +800,11 @@ func (a *Activation) applyContract(st, pre *State, spec *FuncSpec, pkg *packages
 				a.havocLoc(st, l, tys[i])
 			}
 			for _, r := range ranges {
+				if r.lo.Sort == "ghost" {
+					nv := g.fresh("avail", bvSort(64))
+					st.heaps["Avail"] = sto(g.heap(st, "Avail"), r.arr, nv)
+					continue
+				}
 				a.frameRange(st, r.arr, r.lo, r.n, pos)
 				a.havocRange(st, bvSort(8), r)
 			}
